@@ -55,7 +55,11 @@ func evalList(expr, doc string) ([]*AV, string, string) {
 func checkC16(rc *Run) error {
 	rc.Level = "model_checking"
 	yqlib.InitExpressionParser()
-	cfg := "CONSTANTS\n Dev = {}\n NShards = 1\n Shard = 0\nINIT Init\nNEXT Next\nINVARIANTS PathTruth\nCHECK_DEADLOCK FALSE\n"
+	big := "FALSE"
+	if rc.Thorough() {
+		big = "TRUE"
+	}
+	cfg := "CONSTANTS\n Dev = {}\n Big = " + big + "\n NShards = 1\n Shard = 0\nINIT Init\nNEXT Next\nINVARIANTS PathTruth\nCHECK_DEADLOCK FALSE\n"
 	g, err := runGenEval(rc, "Gen_Paths", "gen", cfg, 20*time.Minute)
 	if err != nil {
 		return err
